@@ -1056,6 +1056,13 @@ def gen_threads(seed, params=None):
     init = [['write', 'x0', 'in0'], ['write', 'x1', 'in1']]
     if rng.random() < 0.4:
         init.append(['mkdir', rng.choice(['d', 'g', 'd/e'])])
+    inputs = ['x0', 'x1']
+    if rng.random() < 0.3:
+        # a foreign input file inside a directory chain in which threads
+        # build (and fail to build) outputs
+        fx = rng.choice(['d/fx', 'd/e/fx', 'g/fx'])
+        init.append(['write', fx, 'foreign-input'])
+        inputs = ['x0', 'x1', fx, fx]
     bodies = []
     outputs = []
     for i in range(nt):
@@ -1090,7 +1097,7 @@ def gen_threads(seed, params=None):
             else:
                 body.append(['q', rng.choice(['read_text', 'is_file',
                                               'get_size']),
-                             rng.choice(['x0', 'x1']), 'METADATA'])
+                             rng.choice(inputs), 'METADATA'])
         bodies.append(body)
     # another thread asks about a target whose function fails: a failed
     # output is never visible, whatever the interleaving (provided nothing
@@ -1106,6 +1113,18 @@ def gen_threads(seed, params=None):
                      'METADATA']
                 bodies[j].insert(rng.randint(0, len(bodies[j])), q)
                 peeked.add(st[1])
+    if nt > 1 and rng.random() < P.get('p_peek', 0.5) * 0.6:
+        # a directory that exists before the build and in which only a
+        # failing target is built: its listing is empty at any moment
+        init.append(['mkdir', 'pk'])
+        i, j = rng.sample(range(nt), 2)
+        bodies[i].insert(rng.randint(0, len(bodies[i])), [
+            'bf', 'pk/bad', rng.choice(['Fbad', 'Fnone']), [i], {},
+            rng.choice(['METADATA', 'HASH']), True])
+        for _ in range(rng.randint(1, 2)):
+            bodies[j].insert(rng.randint(0, len(bodies[j])), [
+                'q', rng.choice(['list_dir', 'walk', 'walk_bu', 'is_dir']),
+                'pk', 'METADATA'])
     if P.get('p_foreign', 0.0) and rng.random() < P['p_foreign']:
         # foreign files at the targets: every thread moves one aside
         for body in bodies:
